@@ -2,7 +2,7 @@
 
 Gate 1 (proof): lake build Poulpy.Props.C19 + axiom audit.
 Gate 2 (implementation vs implementation, `pvh cmp`): for every compressed layout (GLWE, GGLWE, GGSW,
-        switching / automorphism / tensor / GGLWE→GGSW keys), ranks 1..3, dnum/dsize grids, N in {8,16},
+        switching / automorphism / tensor / GGLWE→GGSW keys, and the compressed blind-rotation key of poulpy-bin-fhe), ranks 1..3, dnum/dsize grids, N in {8,16},
         four back ends: encrypt compressed, decompress, and check per ciphertext cell
           masks   = vec_znx_fill_uniform from Source::new(stored seed), columns 1..rank in order (bytes)
           phase   = exact phase (harness-side i128 arithmetic, independent of glwe_decrypt) identical to
@@ -155,6 +155,33 @@ def run(ctx):
                             ctx.cov.setdefault("first_disagreement", {"harness": hl[i], "impl": hout[i][:1500], "model": ln[:1500]})
                 ctx.cov["model_tied_objects"] = len(ml)
                 ctx.cov["model_agree"] = agree
+            # compressed blind-rotation key of poulpy-bin-fhe (pvh rndb brkc_check): same per-cell criteria
+            bl = []
+            for be in BES:
+                for _ in range(6 if quick else 60):
+                    b = rng.range(6, 16)
+                    size = rng.range(2, 3)
+                    bl.append(f"{len(bl)} brkc_check layout=brkc be={be} n={rng.choice([8, 16])} nl={rng.choice([2, 4, 6])} bs=2 rank={rng.range(1, 2)} b={b} "
+                              f"kbrk={(size - 1) * b + rng.range(1, b)} sxs={rng.next()} sxa={rng.next()} sxe={rng.next()}")
+            rcb, bout, berr = ctx.run_lines(binp, ["rndb"], bl, timeout=3000)
+            if rcb != 0 or len(bout) != len(bl):
+                broken.append(f"pvh rndb brkc_check failed rc={rcb} {berr[-300:]}")
+            else:
+                for req, line in zip(bl, bout):
+                    _, st, a = parse_answer(line)
+                    per_layout["brkc"] = per_layout.get("brkc", 0) + 1
+                    ctx.count_case(("brkc", req.split("be=")[1].split()[0], req.split(" n=")[1].split()[0], req.split("rank=")[1].split()[0]))
+                    if st != "ok":
+                        ctx.disagreements += 1
+                        broken.append(f"implementation failed: {req} -> {line[:120]}")
+                        continue
+                    cells = int(a["cells"])
+                    cells_total += cells
+                    if not (int(a["masks"]) == cells and int(a["dec"]) == cells and a["ser"] == "1" and a["seedwords"] == "1"):
+                        ctx.oracle_failures += 1
+                        witness = witness or {"case": req, "implementation": line, "object": "BlindRotationKeyCompressed",
+                                              "oracle": "a decompressed cell of the compressed blind-rotation key differs from the standard encryption under the stored seed",
+                                              "rerun": f"printf '%s\\n' '{req}' | harness/target/release/pvh rndb"}
             ctx.cov["objects_by_layout"] = per_layout
             ctx.cov["cells_total"] = cells_total
             ctx.cov["by_backend"] = {be: sum(1 for c in cases if c["be"] == be) for be in BES}
